@@ -246,6 +246,8 @@ type C07Case struct {
 	Msg     string      `json:"msg"`
 	Args    []C07Seg    `json:"args,omitempty"`
 
+	Hist string `json:"history,omitempty"` // "fresh+warm" etc.: overrides the history derived from the case
+
 	canon string // pattern cases: the pattern itself identifies the input
 }
 
@@ -285,7 +287,28 @@ func (c C07Case) emit() (o c07Obs) {
 	return c.emit1()
 }
 
+// hist: the history a case runs under, a function of the case itself (so that a replay repeats it):
+// fresh = the pools are emptied first (a first record on 128-slot attribute slices and 1 KiB buffers),
+// twice = the same call is issued twice and the SECOND record is the observation (what the first
+// call left behind in the logger, the pooled slice or the pooled context must not show)
+// warm = a small record of the same logger comes first (the pooled attribute slice then has the size
+// small records get, whatever the size of the record under test)
+func (c C07Case) hist() (fresh, twice, warm bool) {
+	h := len(c.Msg) + 3*len(c.Chain) + 5*len(c.Ctx)
+	for _, sg := range c.Args {
+		h += len(sg.Items)
+	}
+	if c.Hist != "" {
+		return strings.Contains(c.Hist, "fresh"), strings.Contains(c.Hist, "twice"), strings.Contains(c.Hist, "warm")
+	}
+	return h%2 == 0, (h/2)%2 == 0, (h/4)%2 == 0
+}
+
 func (c C07Case) emit1() c07Obs {
+	fresh, twice, warm := c.hist()
+	if fresh {
+		slog.VerifPoolsFresh()
+	}
 	if c.Inherit {
 		slog.AddFlags(slog.LattrsR)
 	} else {
@@ -324,25 +347,35 @@ func (c C07Case) emit1() c07Obs {
 		}
 	}
 	args := c07Raw(c.Args)
-	events = nil
-	switch c.Call {
-	case "InfoContext":
-		e.InfoContext(ctx, c.Msg, args...)
-	case "WarnContext":
-		e.WarnContext(ctx, c.Msg, args...)
-	case "ErrorContext":
-		e.ErrorContext(ctx, c.Msg, args...)
-	case "DebugContext":
-		e.DebugContext(ctx, c.Msg, args...)
-	case "LogAttrs":
-		e.LogAttrs(ctx, slog.Level(c.Level), c.Msg, args...)
-	case "Info":
-		e.Info(c.Msg, args...)
-	case "Warn":
-		e.Warn(c.Msg, args...)
-	default:
-		panic("C07Case call " + c.Call)
+	call := func() {
+		switch c.Call {
+		case "InfoContext":
+			e.InfoContext(ctx, c.Msg, args...)
+		case "WarnContext":
+			e.WarnContext(ctx, c.Msg, args...)
+		case "ErrorContext":
+			e.ErrorContext(ctx, c.Msg, args...)
+		case "DebugContext":
+			e.DebugContext(ctx, c.Msg, args...)
+		case "LogAttrs":
+			e.LogAttrs(ctx, slog.Level(c.Level), c.Msg, args...)
+		case "Info":
+			e.Info(c.Msg, args...)
+		case "Warn":
+			e.Warn(c.Msg, args...)
+		default:
+			panic("C07Case call " + c.Call)
+		}
 	}
+	if warm {
+		e.InfoContext(ctx, "a small record first", "k", 1)
+	}
+	if twice {
+		call()
+		args = c07Raw(c.Args) // the same values, built again
+	}
+	events = nil
+	call()
 	for _, ev := range events {
 		if ev.Kind == "write" {
 			o.Payloads = append(o.Payloads, ev.Payload)
@@ -1421,6 +1454,21 @@ func c07Corpus() []C07Case {
 	}
 	base = append(base, C07Case{Kind: "corpus:many-duplicates", Call: "Info", Msg: "m", Chain: []C07Logger{{Name: "r", Create: "Plain"}},
 		Args: []C07Seg{{"attr", many[:7]}, {"attrs", many[7:20]}, {"pair", many[20:]}}})
+	// large calls (the pooled attribute slice of a new process holds 128 entries): 56..64 key/value pairs from
+	// the call on a logger with attributes of its own, an ancestor's and a context key, as the first large record after a small one
+	for _, n := range []int{55, 56, 57, 60, 64} {
+		var big []GAttr
+		for i := 0; i < n; i++ {
+			big = append(big, iv(fmt.Sprintf("k%02d", (i*37)%n), int64(i)))
+		}
+		for _, h := range []string{"fresh+warm", "fresh", "warm+twice"} {
+			base = append(base, C07Case{Kind: "corpus:large-call", Inherit: true, Call: "InfoContext", Msg: "m", Hist: h,
+				Ctx: []C07KV{{C07Key{Kind: "str", S: "reqid"}, GVal{Kind: "string", S: "r-42"}}},
+				Chain: []C07Logger{{Name: "r", Create: "OptAttrs1", Segs: []C07Seg{{"attrs", []GAttr{iv("anc", 1)}}}},
+					{Name: "l", Create: "Args", Segs: []C07Seg{{"pair", []GAttr{iv("own", 2), iv("k03", -1)}}}, Keys: []C07Key{{Kind: "str", S: "reqid"}}}},
+				Args: []C07Seg{{"pair", big}}})
+		}
+	}
 	// context corner cases: nil context, a nil layer hiding a value, string and Stringer key of one name, an unregistered key
 	keys := []C07Key{{Kind: "str", S: "a"}, {Kind: "stringer", S: "a"}, {Kind: "str", S: "b"}, {Kind: "other", ID: 1}, {Kind: "stringer", S: "c"}}
 	cx := C07Case{Kind: "corpus:context", Call: "InfoContext", Msg: "m", Chain: []C07Logger{{Name: "r", Create: "Plain", Keys: keys, KeySplit: 2}},
@@ -1456,7 +1504,7 @@ func c07Corpus() []C07Case {
 const c07Header = "Require Import Verif.Model.Base Verif.Model.Mode Verif.Model.Attrs Verif.Model.Collect Verif.Corr.Enc Verif.Corr.C07."
 
 func runC07(r *Run) {
-	r.Rule = "logger chains of depth 1..4 built through New(name) / New(name, attrs...) / New(name, With(...)) / New(name, WithAttrs1(...)) / With / WithAttrs / WithAttrs1 / WithContextKeys, then Set / SetAttrs / SetAttrs1 (own lists of 0..10 attributes incl. nil entries and groups nested <= 2, thorough <= 4), " +
+	r.Rule = "logger chains of depth 1..4 built through New(name) / New(name, attrs...) / New(name, With(...)) / New(name, WithAttrs1(...)) / With / WithAttrs / WithAttrs1 / WithContextKeys, then Set / SetAttrs / SetAttrs1 (own lists of 0..10 attributes incl. nil entries and groups nested <= 2, thorough <= 4), ; histories (a function of the case): half of the cases start on emptied pools (and the attribute-slice size of a new process), half after a small record of the same logger, and in half of the cases the call is issued twice on the same loggers and the SECOND record is the one checked" +
 		"context keys registered by SetContextKeys (one or two calls) / WithContextKeys: string keys, Stringer keys, other key types; context values present, absent, nil, hidden by an inner layer; nil context; calls without context argument; keys registered on ancestors only; " +
 		"call lists of 0..64 attributes (as Attr, []Attr, Attrs, key-value pairs) drawn from a pool of 2..7 keys shared by all sources; inherit flag on/off; json/logfmt/colour; emitted by InfoContext/WarnContext/ErrorContext/DebugContext/LogAttrs/Info/Warn on a logger admitting everything; " +
 		"corpus (refutation witness, Props example, one key on all four sources, 30 attributes on 3 keys, context corner cases, groups) + random cases + collision patterns (see extra.exhaustive_*). " +
